@@ -27,7 +27,10 @@ TITLES = ["Foo", "foo bar", "Ünï/sub", "A:B c", "Foo/documentation", "Foo/test
 BODIES = ["x", " lead", "trail \n", "\n\nblank\n\n", "a&amp;b <tag> ]]> & \"q\"", "",
           "<noinclude>doc</noinclude>body<includeonly>inc</includeonly>", "<!-- c -->t<onlyinclude>only</onlyinclude>u",
           "a\r\nb", "\tt", "x<noinclude>unclosed",
-          "a\n<!-- c -->\nb", "a\n <!--c--> \nb", "a\n<!--c-->b\n<!--d-->", "<!-- first -->\na<!--m-->\n"]
+          "a\n<!-- c -->\nb", "a\n <!--c--> \nb", "a\n<!--c-->b\n<!--d-->", "<!-- first -->\na<!--m-->\n",
+          # sections that exist but are empty: the includable part is empty, not the whole page
+          "<onlyinclude></onlyinclude>This template is intentionally blank.", "a<onlyinclude/>b",
+          "<onlyinclude></onlyinclude>a<onlyinclude>k</onlyinclude>"]
 MODELS = ["wikitext", "Scribunto", "json", "css", "javascript", "sanitized-css"]
 KEPT_MODELS = {"wikitext", "Scribunto", "json"}
 DEFAULTS = {"Template:!": "|", "Template:=": "=", "Template:((": "&lbrace;&lbrace;", "Template:))": "&rbrace;&rbrace;"}
@@ -81,9 +84,9 @@ def includable(text):
     text = re.sub(r"(?is)<noinclude\s*>.*?</noinclude\s*>", "", text)
     text = re.sub(r"(?is)<noinclude\s*>.*", "", text)
     text = re.sub(r"(?s)<!--.*", "", text)
-    only = re.findall(r"(?is)<onlyinclude\s*>(.*?)</onlyinclude\s*>", text)
+    only = list(re.finditer(r"(?is)<onlyinclude\s*>(.*?)</onlyinclude\s*>|<onlyinclude\s*/>", text))
     if only:
-        text = "".join(only)
+        text = "".join(m.group(1) or "" for m in only)
     text = re.sub(r"(?is)<\s*/?\s*includeonly\s*/?\s*>", "", text)
     return text
 
